@@ -249,6 +249,19 @@ fn iter_protocol<I: Iterator>(cx: &mut Ctx, name: &'static str, len: usize, mk: 
 
 pub fn regular(cx: &mut Ctx, sm: &SourceMap, full: bool) {
     let mask = if full { u64::MAX } else { cx.rng.next_u64() | 1 };
+    regular_pass(cx, sm, full, mask);
+    // a second, sparse pass over the same map: the blocks run in a fixed order within a pass, so
+    // this is what puts a later block *before* an earlier one on the same object (state a call
+    // leaves behind in a lazily built index or cache must not break the calls that follow)
+    if cx.depth == 0 {
+        let again = cx.rng.next_u64() & cx.rng.next_u64();
+        if again & 0xfff != 0 {
+            regular_pass(cx, sm, false, again);
+        }
+    }
+}
+
+fn regular_pass(cx: &mut Ctx, sm: &SourceMap, full: bool, mask: u64) {
     let on = |bit: u32| mask & (1 << bit) != 0;
     let ntok = sm.get_token_count() as usize;
     cx.digest.u64(ntok as u64);
